@@ -22,7 +22,8 @@ func c19(r *core.Run) {
 	r.Explanation = "Decided clause (narrow): constructor ownership of normalisation — StringValue and CharacterValue struct literals occur only in the constructors NewUnmeteredStringValue / NewUnmeteredCharacterValue (which apply norm.NFC) and the deprecated *_Unsafe constructors, " +
 		"and the unsafe constructors have no caller in shipped code; every other producer therefore yields NFC-normalised strings; " +
 		"(R2) the cached cluster count StringValue.length is assigned only by (*StringValue).Length, which counts clusters by iteration (counts are not additive across a concat seam); " +
-		"(R3) in the substring search indexOf every path from the boundary seek to the next loop iteration restores the grapheme iterator from its backup."
+		"(R3) in the substring search indexOf every path from the boundary seek to the next loop iteration restores the grapheme iterator from its backup; " +
+		"(R4) String.join decides whether to write the separator from the position in the array (a flag or an index), never from what has been written so far: the branch that controls the separator write does not depend on the string builder."
 	r.NotDecided = "grapheme-cluster semantics of every string operation (length, slicing, indexing, comparison) beyond these three clauses."
 	stringNormalisation(r, "R1.normalised")
 	r.Floor("R1.normalised", 4)
@@ -94,6 +95,7 @@ func c19(r *core.Run) {
 		}
 	}
 	r.Floor("R3.restore", 1)
+	c19JoinSeparator(r)
 }
 
 func structFieldOf(fa *ssa.FieldAddr) (string, string) {
@@ -514,4 +516,89 @@ func stringNormalisation(r *core.Run, rule string) {
 		}
 		r.Check(len(ks) == 0, rule, "interpreter."+unsafe+": no shipped caller", 0, "only migrations/tests may call it", "the non-normalising constructor is called from shipped code: "+strings.Join(ks, ", "))
 	}
+}
+
+// c19JoinSeparator: R4 — join(xs, sep) writes sep before every element but the first, whatever the elements are
+// (join(split(s, sep), sep) == s also when s starts with sep, i.e. when leading elements are empty). The branch that
+// controls the write of the separator must be decided by the position (a first-flag, an index), so its condition must
+// not depend on the strings.Builder the result is accumulated in (its length says how much was written, not how many
+// elements were seen), nor on the element.
+func c19JoinSeparator(r *core.Run) {
+	const rule = "R4.joinsep"
+	w := r.W
+	fn := mustFn(r, rule, "interpreter", "", "StringFunctionJoin")
+	if fn == nil {
+		return
+	}
+	isBuilderish := func(t types.Type) bool {
+		s := t.String()
+		return strings.Contains(s, "strings.Builder") || strings.Contains(s, "bytes.Buffer")
+	}
+	n := 0
+	for _, g := range core.WithAnon(fn) {
+		for _, c := range core.Calls(g, false) {
+			o := core.Callee(c)
+			if o == nil || o.Name() != "WriteString" || len(c.Common().Args) < 2 {
+				continue
+			}
+			// the separator write: the written string derives from the separator parameter (param #2)
+			if !strings.Contains(core.OriginLeaves(c.Common().Args[len(c.Common().Args)-1]), "param#2:") {
+				continue
+			}
+			n++
+			in, _ := c.(ssa.Instruction)
+			bad := ""
+			conds := core.ControllingConds(in)
+			for _, a := range conds {
+				if a.Var.Call == nil {
+					continue
+				}
+				seen := map[ssa.Value]bool{}
+				var walk func(v ssa.Value, d int)
+				walk = func(v ssa.Value, d int) {
+					if v == nil || seen[v] || d > 8 || bad != "" {
+						return
+					}
+					seen[v] = true
+					if cl, ok := v.(*ssa.Call); ok {
+						for _, arg := range cl.Call.Args {
+							t := arg.Type()
+							if p, ok := t.(*types.Pointer); ok {
+								t = p.Elem()
+							}
+							if isBuilderish(t) {
+								bad = "the result builder (" + func() string {
+									if oo := core.Callee(cl); oo != nil {
+										return oo.Name()
+									}
+									return "call"
+								}() + ")"
+								return
+							}
+						}
+					}
+					if vi, ok := v.(ssa.Instruction); ok {
+						for _, op := range vi.Operands(nil) {
+							if op != nil && *op != nil {
+								walk(*op, d+1)
+							}
+						}
+					}
+				}
+				walk(a.Var.Call, 0)
+			}
+			r.Check(bad == "" && len(conds) > 0, rule, core.SSAKey(fn)+": separator write", c.Pos(), "controlled by a positional condition",
+				"the separator write of String.join is decided by "+orStr(bad, "no condition at all")+": separators before leading empty elements are dropped (join(split(s, sep), sep) != s)")
+		}
+	}
+	_ = w
+	r.Check(n >= 1, rule, "interpreter.StringFunctionJoin: separator writes", 0, itoa(n)+" found", "the separator write of String.join was not found")
+	r.Floor(rule, 2)
+}
+
+func orStr(a, b string) string {
+	if a != "" {
+		return a
+	}
+	return b
 }
